@@ -46,8 +46,10 @@ func (s *spySigner) Algorithm() cose.Algorithm {
 	return s.alg
 }
 
-func (s *spySigner) Sign(rand io.Reader, content []byte) ([]byte, error) {
-	s.log.add(J{"who": s.name, "call": "Sign", "content": ints(content)})
+func (s *spySigner) Sign(rand io.Reader, content []byte) (ret []byte, err error) {
+	defer func() {
+		s.log.add(J{"who": s.name, "call": "Sign", "content": ints(content), "ret": rawJ(ret), "reterr": errClass(err), "fault": s.fault})
+	}()
 	switch s.fault {
 	case "err":
 		return nil, errInjected
@@ -81,8 +83,10 @@ func (v *spyVerifier) Algorithm() cose.Algorithm {
 	return v.alg
 }
 
-func (v *spyVerifier) Verify(content, signature []byte) error {
-	v.log.add(J{"who": v.name, "call": "Verify", "content": ints(content), "sig": ints(signature)})
+func (v *spyVerifier) Verify(content, signature []byte) (err error) {
+	defer func() {
+		v.log.add(J{"who": v.name, "call": "Verify", "content": ints(content), "sig": ints(signature), "reterr": errClass(err), "fault": v.fault})
+	}()
 	if v.fault == "err" {
 		return errInjectedVerify
 	}
@@ -130,6 +134,8 @@ func errClass(err error) string {
 		return "ErrInjected"
 	case errors.Is(err, errInjectedVerify):
 		return "ErrInjectedVerify"
+	case errors.Is(err, errEntropy):
+		return "ErrEntropy"
 	}
 	return "err"
 }
